@@ -127,7 +127,28 @@ def plan(ctx):
             n = rng.randint(3, 6)
             items.append(('seq', engine.stable_hash((ctx.seed, 'seq', i)), tuple(rng.randrange(len(SHAPES)) for _ in range(n)),
                           rng.choice(modes), 3))
+    for i in range(ctx.n(150, 4000)):
+        items.append(('plainseq', engine.stable_hash((ctx.seed, 'plainseq', i)), None, modes[i % len(modes)], 3))
     return items
+
+
+def plain_section_lines(rng, flavour, idx, ending, same):
+    """One file section of `diff -u` (flavour 'plain') or `diff -ru` (flavour 'plainr') output."""
+    s = gen.gen_section(rng, 'modified', simple_paths=True, maxlines=6, maxlen=50)
+    if same:
+        s.old_path = s.new_path = same
+    else:
+        s.old_path = 'p%d/%s' % (idx, s.old_path)
+        s.new_path = s.old_path if rng.random() < 0.7 else 'q%d/%s' % (idx, s.new_path)
+    h = s.hunks[-1]
+    lines = [l for l in h.lines if l[0] != '\\']
+    if ending == '\\':
+        h.lines = lines + [('\\', '')]
+    else:
+        while lines and lines[-1][0] != ending:
+            lines.pop()
+        h.lines = lines or [(ending, gen.rand_text(rng, 30, allow_empty=False))]
+    return gen.Diff([s], fmt=flavour).lines()
 
 
 def EXHAUSTIVE(ctx):
@@ -138,10 +159,17 @@ EXHAUSTIVE_SCOPE = 'all ordered pairs of the %d (kind, ending) shapes x %d modes
 
 
 def run_item(item):
-    _, seed, shape_idx, mode, reps = item
+    kind0, seed, shape_idx, mode, reps = item
     rng = engine.item_rng(seed)
     same = rng.choice(['same/file.rs', 'LICENSE', 'dir/notes.xyzzy', 'a b/c d.py']) if rng.random() < 0.25 else None
-    secs = [make_section_lines(rng, SHAPES[k], i, same) for i, k in enumerate(shape_idx)]
+    if kind0 == 'plainseq':
+        # a stream of plain `diff -u` / `diff -ru` sections (a patch series): sections start at their '--- ' / 'diff -ru' line
+        flavour = rng.choice(['plain', 'plainr'])
+        endings = [rng.choice(ENDINGS) for _ in range(rng.randint(2, 5))]
+        shape_idx = tuple(SHAPES.index(('modified', e)) for e in endings)
+        secs = [plain_section_lines(rng, flavour, i, e, same) for i, e in enumerate(endings)]
+    else:
+        secs = [make_section_lines(rng, SHAPES[k], i, same) for i, k in enumerate(shape_idx)]
     if MODES[mode] == 'GITCONFIG':
         args = ['--paging', 'never', '--config', runner.write_file('c10.gitconfig', GITCONFIG_TEXT)]
         reps = max(reps, 6)
@@ -150,7 +178,8 @@ def run_item(item):
     whole_in = ('\n'.join(l for s in secs for l in s) + '\n').encode()
     outs = []
     counters = {'sections': len(secs), 'determinism_reruns': 0}
-    sets = {'modes': [mode], 'shapes': ['%s/%s' % SHAPES[k] for k in shape_idx], 'same_file_in_all_sections': [same or 'no']}
+    sets = {'modes': [mode], 'shapes': ['%s/%s' % SHAPES[k] for k in shape_idx], 'same_file_in_all_sections': [same or 'no'],
+            'source': [kind0 if kind0 != 'plainseq' else 'plain-diff:' + flavour]}
     whole = runner.run_delta(args, whole_in, trace=(seed % 4 == 0))
     if whole.trace is not None:
         sets['state_transitions'] = engine.transitions(whole.trace)
